@@ -23,6 +23,13 @@ def assigned_names(stmts):
   return names
 
 
+def base_array(arr):
+  """The constant a chain of Store(...) was built on."""
+  while z3.is_app(arr) and arr.decl().kind() == z3.Z3_OP_STORE:
+    arr = arr.arg(0)
+  return arr
+
+
 class SpecMixin(object):
 
   # ------------------------------------------------------------------ havoc helpers
@@ -373,7 +380,9 @@ class SpecMixin(object):
         # writes to objects allocated inside the iteration are invisible outside it
         old = before.heap.get(key)
         if old is None:
-          old = z3.Const('H0_%s_%s' % key, after.heap[key].sort())
+          old = base_array(after.heap[key])        # first touched inside the body: its base constant is the head value
+          if old.eq(after.heap[key]):
+            continue
         r = fresh('fr', z3.IntSort())
         goal = z3.ForAll([r], z3.Implies(r < before.next_oid, z3.Select(after.heap[key], r) == z3.Select(old, r)))
         self.ctx.obligations.append(Obligation('%s/loop-frame.%s.%s@%s' % (self.ctx.unit, key[0], key[1], label),
